@@ -31,6 +31,11 @@ const (
 	kStr
 	kByte
 	kOID // a git.OID parameter: only its String() is used, passed in as a byte string
+	kStrs   // []string
+	kU64    // uint64 (as Nat, < 2^64)
+	kOIDVal // a parsed object id (20 bytes)
+	kErr
+	kStruct
 )
 
 type val struct {
@@ -141,8 +146,33 @@ func (e *env) expr(x ast.Expr) val {
 		if id, ok := t.Fun.(*ast.Ident); ok && id.Name == "len" && len(t.Args) == 1 {
 			return bind1(e.expr(t.Args[0]), func(a string) string { return "(" + a + ".length : Int)" }, kInt)
 		}
+		if id, ok := t.Fun.(*ast.Ident); ok && len(t.Args) == 1 && (id.Name == "ObjectType" || id.Name == "string") {
+			return e.expr(t.Args[0]) // a conversion between string types
+		}
+		if sel, ok := t.Fun.(*ast.SelectorExpr); ok && len(t.Args) == 1 {
+			if pk, ok := sel.X.(*ast.Ident); ok && pk.Name == "counts" {
+				a := e.expr(t.Args[0])
+				if a.k != kU64 {
+					die(t.Pos(), "counts.New* of a non-uint64")
+				}
+				switch sel.Sel.Name {
+				case "NewCount64":
+					return a
+				case "NewCount32":
+					return bind1(a, func(x string) string { return "(min " + x + " 4294967295)" }, kU64)
+				}
+			}
+		}
 		if sel, ok := t.Fun.(*ast.SelectorExpr); ok {
 			if pk, ok := sel.X.(*ast.Ident); ok && pk.Name == "strings" && len(t.Args) == 2 {
+				if sel.Sel.Name == "Split" {
+					sep := e.expr(t.Args[1])
+					if !sep.pure || !strings.HasPrefix(sep.code, "([") || strings.Contains(sep.code, ",") {
+						die(t.Pos(), "strings.Split with a separator that is not one byte")
+					}
+					b := strings.TrimSuffix(strings.TrimPrefix(sep.code, "(["), "] : Bytes)")
+					return bind1(e.expr(t.Args[0]), func(a string) string { return "(Bytes.splitOn " + b + " " + a + ")" }, kStrs)
+				}
 				fn := map[string]string{"HasPrefix": "Bytes.hasPrefix", "HasSuffix": "Bytes.hasSuffix"}[sel.Sel.Name]
 				if fn != "" {
 					return bind2(e.expr(t.Args[0]), e.expr(t.Args[1]), func(a, b string) string { return "(" + fn + " " + a + " " + b + ")" }, kBool)
@@ -161,10 +191,13 @@ func (e *env) expr(x ast.Expr) val {
 		die(t.Pos(), "unsupported call")
 	case *ast.IndexExpr:
 		s, i := e.expr(t.X), e.expr(t.Index)
-		if s.k != kStr || i.k != kInt {
+		if (s.k != kStr && s.k != kStrs) || i.k != kInt {
 			die(t.Pos(), "index of a non-string or by a non-int")
 		}
 		a, b := fresh(), fresh()
+		if s.k == kStrs {
+			return val{fmt.Sprintf("(do let %s ← %s; let %s ← %s; Go.indexL %s %s)", a, s.m(), b, i.m(), a, b), false, kStr}
+		}
 		return val{fmt.Sprintf("(do let %s ← %s; let %s ← %s; Go.indexI %s %s)", a, s.m(), b, i.m(), a, b), false, kByte}
 	case *ast.SliceExpr:
 		if t.Slice3 {
@@ -231,14 +264,47 @@ func (e *env) expr(x ast.Expr) val {
 	return val{}
 }
 
+func isNil(x ast.Expr) bool {
+	id, ok := x.(*ast.Ident)
+	return ok && id.Name == "nil"
+}
+
 func (e *env) ret(rs []ast.Expr, want []kind) string {
 	if len(rs) != len(want) {
 		die(rs[0].Pos(), "number of results")
 	}
+	// (value, error) functions: a non-nil error is `.err`, `S{...}, nil` is the tuple of the fields
+	if want[len(want)-1] == kErr {
+		if !isNil(rs[len(rs)-1]) {
+			return ".err \"error\""
+		}
+		rs, want = rs[:len(rs)-1], want[:len(want)-1]
+		if len(rs) == 1 {
+			if cl, ok := rs[0].(*ast.CompositeLit); ok {
+				var fields []ast.Expr
+				for _, el := range cl.Elts {
+					kv, ok := el.(*ast.KeyValueExpr)
+					if !ok {
+						die(el.Pos(), "positional struct literal")
+					}
+					fields = append(fields, kv.Value)
+				}
+				var ks []kind
+				for range fields {
+					ks = append(ks, -1)
+				}
+				return e.retVals(fields, ks)
+			}
+		}
+	}
+	return e.retVals(rs, want)
+}
+
+func (e *env) retVals(rs []ast.Expr, want []kind) string {
 	var vs []val
 	for i, r := range rs {
 		v := e.expr(r)
-		if v.k != want[i] {
+		if want[i] != -1 && v.k != want[i] {
 			die(r.Pos(), "result kind")
 		}
 		vs = append(vs, v)
@@ -306,6 +372,42 @@ func (e *env) stmts(list []ast.Stmt, ind string, cont func(ind string) string) s
 				die(t.Pos(), "assignment to unknown variable")
 			}
 			return e.letStmt(id.Name, v, rest(ind), ind)
+		}
+		// x, err := NewOID(w) / strconv.ParseUint(w, 10, bits): the error is the monad's
+		if len(t.Lhs) == 2 && len(t.Rhs) == 1 && exprName(t.Lhs[1]) == "err" {
+			if c, ok := t.Rhs[0].(*ast.CallExpr); ok {
+				lean, k := "", kStr
+				switch fn := c.Fun.(type) {
+				case *ast.Ident:
+					if fn.Name == "NewOID" && len(c.Args) == 1 {
+						a := e.expr(c.Args[0])
+						lean, k = "(do let w ← "+a.m()+"; Go.newOIDR w)", kOIDVal
+					}
+				case *ast.SelectorExpr:
+					if exprName(fn.X) == "strconv" && fn.Sel.Name == "ParseUint" && len(c.Args) == 3 {
+						a := e.expr(c.Args[0])
+						base, bits := srcLit(c.Args[1]), srcLit(c.Args[2])
+						if bits == "0" {
+							bits = "64" // strconv: bitSize 0 = uint = 64 bits on the platforms git-sizer supports
+						}
+						lean, k = "(do let w ← "+a.m()+"; Go.parseUintR w "+base+" "+bits+")", kU64
+					}
+				}
+				if lean != "" {
+					id := t.Lhs[0].(*ast.Ident)
+					e.declare(id.Name, k)
+					// the `if err != nil { return …, err }` that follows is the bind itself
+					tail := list[1:]
+					if len(tail) > 0 {
+						if ifs, ok := tail[0].(*ast.IfStmt); ok && srcCond(ifs.Cond) == "err != nil" && ifs.Else == nil {
+							tail = tail[1:]
+						} else {
+							die(t.Pos(), "error of a library call is not checked at once")
+						}
+					}
+					return fmt.Sprintf("%slet %s ← %s\n%s", ind, e.name[id.Name], lean, e.stmts(tail, ind, cont))
+				}
+			}
 		}
 		// x, y := f(args) for a translated function
 		if len(t.Rhs) == 1 && t.Tok == token.DEFINE {
@@ -490,6 +592,21 @@ func (e *env) forLoop(t *ast.ForStmt, ind string, rest func(string) string) stri
 	return fmt.Sprintf("%s%s %s (%s.length + 1) %s", ind, lname, strings.Join(paramNames(e.params), " "), bound.code, strings.Join(callArgs, " "))
 }
 
+func srcLit(x ast.Expr) string {
+	if b, ok := x.(*ast.BasicLit); ok {
+		return b.Value
+	}
+	die(x.Pos(), "literal expected")
+	return ""
+}
+
+func srcCond(x ast.Expr) string {
+	if b, ok := x.(*ast.BinaryExpr); ok {
+		return exprName(b.X) + " " + b.Op.String() + " " + exprName(b.Y)
+	}
+	return ""
+}
+
 func underscores(n int) []string {
 	var r []string
 	for i := 0; i < n; i++ {
@@ -527,13 +644,24 @@ func kindOfType(x ast.Expr) kind {
 	if sel, ok := x.(*ast.SelectorExpr); ok && sel.Sel.Name == "OID" {
 		return kOID
 	}
+	if id, ok := x.(*ast.Ident); ok {
+		switch id.Name {
+		case "error":
+			return kErr
+		case "BatchHeader", "Reference":
+			return kStruct
+		}
+	}
 	die(x.Pos(), "unsupported type")
 	return kStr
 }
 
 func leanType(k kind) string {
-	return map[kind]string{kBool: "Bool", kInt: "Int", kStr: "Bytes", kByte: "UInt8"}[k]
+	return map[kind]string{kBool: "Bool", kInt: "Int", kStr: "Bytes", kByte: "UInt8", kStrs: "List Bytes", kU64: "Nat", kOIDVal: "Bytes"}[k]
 }
+
+// resultOverride: the Lean type of the value part of a (struct, error) result
+var resultOverride = map[string]string{}
 
 func translate(repo, rel, recvType, fn, leanName string, out *strings.Builder) {
 	f, err := parser.ParseFile(fset, filepath.Join(repo, rel), nil, 0)
@@ -613,6 +741,13 @@ func translate(repo, rel, recvType, fn, leanName string, out *strings.Builder) {
 			}
 			for i := 0; i < n; i++ {
 				want = append(want, k)
+				if k == kErr {
+					continue
+				}
+				if k == kStruct {
+					wantT = append(wantT, resultOverride[fn])
+					continue
+				}
 				wantT = append(wantT, leanType(k))
 			}
 			for _, nm := range r.Names { // named results start at their zero values
@@ -646,11 +781,15 @@ func main() {
 	}
 	repo, outdir := os.Args[1], os.Args[2]
 	var out strings.Builder
-	out.WriteString("import GitSizer.Basic.GoSem\n-- GENERATED by tools/gostr2lean from git/ref_filter.go, git/gitconfig.go and sizes/path_resolver.go — do not edit\nnamespace Gen.Strs\nopen GitSizer\n\n")
+	out.WriteString("import GitSizer.Basic.GoSem\n-- GENERATED by tools/gostr2lean from git/ref_filter.go, git/gitconfig.go, sizes/path_resolver.go, git/batch_header.go and git/reference.go — do not edit\nnamespace Gen.Strs\nopen GitSizer\n\n")
 	translate(repo, "git/ref_filter.go", "prefixFilter", "Filter", "prefixFilter_Filter", &out)
 	translate(repo, "git/gitconfig.go", "", "configKeyMatchesPrefix", "configKeyMatchesPrefix", &out)
 	translate(repo, "sizes/path_resolver.go", "", "scanRevision", "scanRevision", &out)
 	translate(repo, "sizes/path_resolver.go", "", "rootTreePrefix", "rootTreePrefix", &out)
+	resultOverride["ParseBatchHeader"] = "Bytes × Bytes × Nat" // OID, ObjectType, ObjectSize
+	resultOverride["ParseReference"] = "Bytes × Bytes × Nat × Bytes" // Refname, ObjectType, ObjectSize, OID
+	translate(repo, "git/batch_header.go", "", "ParseBatchHeader", "ParseBatchHeader", &out)
+	translate(repo, "git/reference.go", "", "ParseReference", "ParseReference", &out)
 	out.WriteString("end Gen.Strs\n")
 	os.MkdirAll(outdir, 0o755)
 	if err := os.WriteFile(filepath.Join(outdir, "Strs.lean"), []byte(out.String()), 0o644); err != nil {
